@@ -1,6 +1,6 @@
 (* Properties/C03.v -- replies go back to the asker, from the identity that was
    asked. This file only pins the statement; the proof is in Proofs/C03.v. *)
-From MS Require Import Proto L2 Spec.View Spec.RefDec Spec.C03 Spec.EnvOk Proofs.C03.
+From MS Require Import Proto L2 Spec.View Spec.RefDec Spec.C03 Spec.EnvOk Proofs.C03 Proofs.C03Cor.
 
 (* For every configuration, table and frame: what is emitted satisfies the C03
    monitor. A reply frame goes from the configured MAC to the MAC the request came
@@ -37,3 +37,29 @@ Proof. exact mirror_strict. Qed.
 
 Print Assumptions C03_mirror.
 Print Assumptions C03_mirror_strict.
+
+(* The addressing clauses as plain statements about the decoded reply (no
+   monitor in the statement). *)
+
+(* Every emitted frame leaves from the configured MAC, goes to the MAC the
+   request came from and carries the EtherType of the request. *)
+Theorem C03_reply_ethernet :
+  forall E cfg clk tb tb' f rf evs,
+    cfg_ok cfg = true -> env_ok E = true -> bytes_ok f = true ->
+    reply E cfg clk tb f = Ok (tb', Some rf, evs) ->
+    exists e, dec_eth rf = Some e /\ de_src e = c_mac cfg /\
+              de_dst e = firstn 6 (skipn 6 f) /\ de_type e = u16_at 12 f.
+Proof. exact reply_ethernet. Qed.
+Print Assumptions C03_reply_ethernet.
+
+(* Every emitted IP packet has the version and protocol of the request and is
+   addressed to the request's source address. *)
+Theorem C03_reply_ip :
+  forall E cfg clk tb tb' f rf evs,
+    cfg_ok cfg = true -> env_ok E = true -> bytes_ok f = true ->
+    reply E cfg clk tb f = Ok (tb', Some rf, evs) ->
+    forall e, dec_eth rf = Some e -> de_type e <> 2054 ->
+    exists i v, dec_ip e = Some i /\ view cfg f = Some v /\
+                di_v4 i = v_v4 v /\ di_proto i = v_proto v /\ di_dst i = v_src v.
+Proof. exact reply_ip. Qed.
+Print Assumptions C03_reply_ip.
